@@ -1647,6 +1647,8 @@ impl ImplPrimitive {
                     }
                 }
 
+                // The number of axes that are iterated over
+                let iterated = depth.min(vals.iter().map(Value::rank).max().unwrap_or(0));
                 if undo {
                     for val in &mut *vals {
                         if val.row_count() != len {
@@ -1663,7 +1665,11 @@ impl ImplPrimitive {
                             );
                             return Err(env.error(message));
                         }
-                        val.reverse();
+                        // The saved contexts come back in the opposite order to
+                        // that in which all the axes that are iterated over were visited
+                        for d in 0..iterated.min(val.rank()) {
+                            val.reverse_depth(d);
+                        }
                     }
                 }
 
@@ -1689,7 +1695,9 @@ impl ImplPrimitive {
 
                 if undo {
                     for val in env.top_n_mut(outputs)? {
-                        val.reverse();
+                        for d in 0..iterated.min(val.rank()) {
+                            val.reverse_depth(d);
+                        }
                     }
                 }
             }
